@@ -147,6 +147,10 @@ func c15Outcomes() []c15Outcome {
 		{"nil", nil, "ok", "ok", 200, false},
 		{"plain-error", errors.New("boom"), "retry", "retry", 503, false},
 		{"permanent-error", consumererror.NewPermanent(errors.New("perm")), "permanent", "permanent", 500, false},
+		// a permanent error is permanent whatever its cause chain holds (a downstream call that gave up on ITS context)
+		{"permanent-error-wrapping-deadline-exceeded", consumererror.NewPermanent(fmt.Errorf("downstream: %w", context.DeadlineExceeded)), "permanent", "permanent", 500, false},
+		{"permanent-error-wrapping-canceled", consumererror.NewPermanent(fmt.Errorf("downstream: %w", context.Canceled)), "permanent", "permanent", 500, false},
+		{"wrapped-permanent-error", fmt.Errorf("stage: %w", consumererror.NewPermanent(errors.New("perm"))), "permanent", "permanent", 500, false},
 	}
 	for c := codes.Canceled; c <= codes.Unauthenticated; c++ {
 		for _, d := range []time.Duration{0, 2 * time.Second} {
